@@ -263,6 +263,28 @@ func PrintParse(p *core.Prog, r *core.Report) {
 			if c, ok := n.(*ast.CallExpr); ok && core.IsCallTo(info, c, "fmt.Sprintf") && len(c.Args) == 2 {
 				format, _ = core.ConstString(info, c.Args[0])
 			}
+			// the same text written as a concatenation: "join(" + s + ")"
+			if rs, ok := n.(*ast.ReturnStmt); ok && len(rs.Results) == 1 && format == "" {
+				var parts []ast.Expr
+				var flat func(e ast.Expr)
+				flat = func(e ast.Expr) {
+					if be, ok := ast.Unparen(e).(*ast.BinaryExpr); ok && be.Op == token.ADD {
+						flat(be.X)
+						flat(be.Y)
+						return
+					}
+					parts = append(parts, e)
+				}
+				flat(rs.Results[0])
+				if len(parts) == 3 {
+					a, okA := core.ConstString(info, parts[0])
+					_, okB := core.ConstString(info, parts[1])
+					c, okC := core.ConstString(info, parts[2])
+					if okA && !okB && okC {
+						format = a + "%s" + c
+					}
+				}
+			}
 			return true
 		})
 		i := strings.Index(format, "%s")
